@@ -110,7 +110,10 @@ def case_strategy(draw, tier):
              vacuum=(matter == "vacuum"),
              form=draw(st.sampled_from(["components", "tensors"])),
              gdet_first=draw(st.booleans()), kind=kind,
-             first=draw(st.sampled_from(FIRST)))
+             first=draw(st.sampled_from(FIRST)),
+             cache_kw=draw(st.sampled_from(
+                 [{}] * 5 + [dict(clear_cache_every_nbr_calc=2),
+                             dict(memory_threshold_inGB=1e-7)])))
     return c
 
 
